@@ -44,8 +44,8 @@ claim("C03",
   "DESIGN.md §4 C03")
 claim("C12",
   "Lean 4 proof over a model of normalize_index, the n-D _slice_1d plan of SliceSlicesIntegers, .blocks and take regrouping + behavioural correspondence (exhaustive 1-D n<=5) + end-to-end search vs NumPy",
-  "15 theorems for all ranks/shapes/chunkings: normalize_index preserves NumPy meaning and refuses exactly when NumPy does (basic indices); the per-axis block plan lifted to the n-D grid reads exactly the selected positions in order (axisLift, ssiLayer_eq_cells); advertised chunks/shape; .blocks selection; take regrouping preserves the index list.",
-  TB + "Integer-list/boolean/dask-array/.vindex indexing and the Shuffle gather are decided by correspondence of the helpers plus the end-to-end search only. 12 known findings are listed and probed every run.",
+  "24 theorems for all ranks/shapes/chunkings: Props/C12Shuffle (9): the Shuffle layer computes x[indexer] chunk by chunk for every chunking and ANY argsort satisfying IsArgsort, take raises IndexError exactly outside [-n,n) and otherwise returns [x[i] for i in index] in the advertised chunks, every per-block take stays inside its block, .vindex returns the points in order and refuses exactly out-of-bounds entries; Props/C12 (15): normalize_index preserves NumPy meaning and refuses exactly when NumPy does (basic indices); the per-axis block plan lifted to the n-D grid reads exactly the selected positions in order (axisLift, ssiLayer_eq_cells); advertised chunks/shape; .blocks selection; take regrouping preserves the index list.",
+  TB + "Boolean / dask-array indexers, index-array broadcasting, the transpose/reshape after vindex and slice pushdown through Shuffle are decided by correspondence of the helpers plus the end-to-end search only. 12 known findings are listed and probed every run.",
   "DESIGN.md §4 C12")
 claim("C16",
   "Lean 4 theorems over a line-by-line model of blockdims_from_blockshape / round_to / auto_chunks (no previous_chunks) / normalize_chunks with the float root as an oracle + correspondence + brute-force validator on the real normalize_chunks",
@@ -64,8 +64,8 @@ claim("C18",
   "DESIGN.md §4 C18")
 claim("C19",
   "Lean 4 proof over models of the sequential and Blelloch scan wiring, the sliding/moving window block plans, ensure_minimum_chunksize and boundary/trim chunk rules + rename-invariant layer correspondence (exhaustive n<=8, 1..40 blocks) + search vs NumPy/bottleneck definitions",
-  "15 theorems for all inputs: both scans equal the global scan for every block count; the banded window decompositions tile exactly the window under the native guards with indices in range; output chunks; ensure_minimum_chunksize; boundary kinds equal np.pad index maps; overlap/trim chunk round trip.",
-  TB + "Value-level overlap/trim identity (upstream ArrayOverlapLayer), min_count/NaN masking, diff/gradient and floats are correspondence/search only.",
+  "27 theorems for all inputs: both scans equal the global scan for every block count; the banded window decompositions tile exactly the window under the native guards with indices in range; output chunks; ensure_minimum_chunksize; boundary kinds equal np.pad index maps; overlap/trim chunk round trip; Props/C19Overlap (12): the chunked map_overlap pipeline (boundaries, overlap_internal, block function, trim) equals the global stencil g∘pad for every boundary kind, depth pair, window-local g and every chunking with chunks >= depth, in 1-D and n-D, hence is chunking-independent; the rechunk guard is established and necessary (decided witness).",
+  TB + "new_axis/drop_axis/trim=False/several inputs of map_overlap, min_count/NaN masking, diff/gradient and floats are correspondence/search only.",
   "DESIGN.md §4 C19")
 claim("C24",
   "Lean 4 theorems over a per-axis model of FromArray region logic (_accept_slice, _layer offsets, _compute_sliced_chunks, _accept_rechunk read chunks) + correspondence with the real layers + recording-source search vs NumPy",
@@ -73,9 +73,9 @@ claim("C24",
   TB + "Per axis; the n-D statement assumes NumPy basic indexing is a per-axis product. The NumPy-source rebase branch is correspondence/search only.",
   "DESIGN.md §4 C24")
 claim("C25",
-  "Lean 4 theorems over the per-block write index fuse_slice(region, chunk_slice) (model shared with C13) + correspondence with logged __setitem__ keys of real da.store runs + sentinel-target search and npy-stack round trips",
-  "4 theorems: for all target lengths, chunkings and positive-step regions the block write sets are pairwise disjoint, concatenate to sel region, place each element at its position and touch nothing outside; negative regions are refused.",
-  TB + "Per axis with the tuple glue proved (C25_fuseTuple_axiswise); return_stored/load_stored and the npy stack are correspondence/search only.",
+  "Lean 4 theorems over the per-block write index fuse_slice(region, chunk_slice) (model shared with C13), the n-D store as a fold of block writes in any order and the npy-stack round trip + correspondence with logged __setitem__ keys of real da.store runs + sentinel-target search and npy-stack round trips",
+  "10 theorems: for all target lengths, chunkings and positive-step regions the block write sets are pairwise disjoint, concatenate to sel region, place each element at its position and touch nothing outside; negative regions are refused; Props/C25StoreND (6): n-D, any order of block writes, several (source, target, region) triples: every region position gets its source value exactly once and nothing else changes (C25n_writes_partition, C25n_store_correct, C25n_order_independent, C25n_multi); to_npy_stack/from_npy_stack round trip (C25n_stack_roundtrip). C25n_refusal_partial: the exact-refusal statement is false for the code (decided witnesses) and is kept as a comment.",
+  TB + "Locks, schedulers, return_stored/load_stored, compute=False and the rechunk inside to_npy_stack are correspondence/search only.",
   "DESIGN.md §4 C25")
 
 claim("C15",
